@@ -33,6 +33,21 @@ Theorem C12_zero_weight_never_drawn :
     pdf_sample Re r 1%R p = SId id -> nth_error (data p) i = Some (id, i) -> nth i (leaves p) 0%R <> 0%R.
 Proof. exact zero_weight_never_drawn. Qed.
 
+(* the two sampling statements composed with reachability: for EVERY pdf that any finite sequence of
+   add/update/remove/clear calls builds from the empty one (no RInv hypothesis left) *)
+Theorem C12_reachable_sample_selects_prefix_interval :
+  forall (ops : list (op Re)) (p : pdf Re) (r : R),
+    pdf_run Re (empty Re) ops = Some p -> data p <> [] -> (0 < r <= 1)%R -> (0 < total p)%R ->
+    exists id i, pdf_sample Re r 1%R p = SId id /\ nth_error (data p) i = Some (id, i) /\
+                 (prefix (leaves p) i < r * total p <= prefix (leaves p) (S i))%R.
+Proof. intros ops p r H. exact (C12_sample_selects_prefix_interval p r (C12_sum_tree_reachable ops p H)). Qed.
+
+Theorem C12_reachable_zero_weight_never_drawn :
+  forall (ops : list (op Re)) (p : pdf Re) (r : R) id i,
+    pdf_run Re (empty Re) ops = Some p -> data p <> [] -> (0 < r <= 1)%R -> (0 < total p)%R ->
+    pdf_sample Re r 1%R p = SId id -> nth_error (data p) i = Some (id, i) -> nth i (leaves p) 0%R <> 0%R.
+Proof. intros ops p r id i H. exact (C12_zero_weight_never_drawn p r id i (C12_sum_tree_reachable ops p H)). Qed.
+
 (* ---- the structure inside a planner: geometric::EST (EST.cpp is one of the property's anchors) keeps one PDF element per motion;
    addMotion divides every neighbour's weight w into w / (w + 1) and adds the new motion with 1 / (#neighbours + 1).  Over the reals,
    for every symmetric distance, start set, iteration count, variate tape and sampler: after solve() the structure satisfies the
@@ -79,3 +94,5 @@ Example C12_nonvacuous :
   exists p, pdf_run Fl (empty Fl) [@PAdd Fl 0 1%float; @PAdd Fl 1 2%float; @PAdd Fl 2 3%float; @PAdd Fl 3 0%float; @PUpd Fl 1 5%float; @PRem Fl 2] = Some p
             /\ map fst (data p) = [0; 1; 3] /\ rows p = [[1%float; 5%float; 0%float]; [6%float; 0%float]; [6%float]].
 Proof. eexists. split; [vm_compute; reflexivity|]. split; reflexivity. Qed.
+Print Assumptions C12_reachable_sample_selects_prefix_interval.
+Print Assumptions C12_reachable_zero_weight_never_drawn.
